@@ -332,7 +332,7 @@ fn run_c09(ctx: &mut Ctx) {
 pub static C09: CheckDef = CheckDef {
     id: "C09",
     level: "exploration",
-    rule: "Same enumerated text spaces as C10 (all SIGMA strings up to the length bound, every single-point mutant of corpus files, 25 nesting constructs x every depth 1..200 on an 8 MiB stack) through parse -> diagnostics -> CairoFormatter::format_to_string (when the text has no parse error); plus semantic+lowering diagnostics (whole compiler front end incl. plugins and inline macros) for all SIGMA strings of length <=2, all nesting texts at depths {1..40 step, 100, 200} and every single-token SIGMA_MUT mutant of small seed programs. Oracle: returns within the watchdog, no panic/abort/stack overflow, every parser diagnostic span within the text on char boundaries. distinct_nontrivial = distinct texts.",
+    rule: "Same enumerated text spaces as C10 (all SIGMA strings up to the length bound, every single-point mutant of corpus files, 25 nesting constructs x every depth 1..200 on an 8 MiB stack) through parse -> diagnostics -> CairoFormatter::format_to_string (when the text has no parse error); plus semantic+lowering diagnostics (whole compiler front end incl. plugins and inline macros) for the format-string lattice (format! / write! / writeln! / print! / println! / panic! / assert! / assert_eq! x 50 placeholder shapes - positional indices at and beyond u32 / u64 / u128, names, specs, unbalanced / escaped braces, spaces, signs, non-ASCII, empty - x 7 argument lists) and for all SIGMA strings of length <=2, all nesting texts at depths {1..40 step, 100, 200} and every single-token SIGMA_MUT mutant of small seed programs. Oracle: returns within the watchdog, no panic/abort/stack overflow, every parser diagnostic span within the text on char boundaries. distinct_nontrivial = distinct texts.",
     assumptions: &["8 MiB stack = default main-thread stack of the CLI tools", "per-item watchdog 20 s stands for 'loops forever'"],
     run: run_c09,
     stack_mb: 8,
